@@ -282,6 +282,62 @@ def gen_case(ch, opts, fixed=None):
     return c
 
 
+_OPSEQS = {}
+
+
+def operator_sequences(mv):
+    """Table D sequences of one master version that hold operators (201-208, 221, 222-237 ...) somewhere in their expansion and
+    expand to at most 150 descriptors -- kept out of the random template grammar (the operators they contain would have to
+    be tracked by the generator's context), used as templates of their own"""
+    if mv not in _OPSEQS:
+        pl = gpool.pool_for(mv)
+        seqs = sorted(s for s, i in pl.seqinfo.items() if i.has_operator and 1 <= i.n_expanded <= 150)
+        # those whose operators leave something in force at the end of the subset: an operator opened and not cancelled
+        # (303021 ends inside 204007), or bitmap / back-reference operators (322001)
+        leaves = []
+        for sid in seqs:
+            try:
+                ids = rtree.expand(rtree.parse([sid], pl.tables))
+            except Exception:
+                continue
+            depth = {}
+            lasting = False
+            for d in ids:
+                if d // 100000 != 2:
+                    continue
+                op, y = d // 1000, d % 1000
+                if op in (201, 202, 204, 207, 208):
+                    depth[op] = depth.get(op, 0) + (1 if y else -1)
+                elif op == 203 and y not in (0, 255):
+                    depth[203] = 1
+                elif op == 203 and y == 0:
+                    depth[203] = 0
+                elif op in (222, 223, 224, 225, 232, 235, 236, 237):
+                    lasting = True
+            if lasting or any(v > 0 for v in depth.values()):
+                leaves.append(sid)
+        _OPSEQS[mv] = (seqs, leaves)
+    return _OPSEQS[mv]
+
+
+def gen_opseq_case(ch, opts):
+    """a message whose section 3 lists no operator: one operator-bearing Table D sequence, alone, twice, or next to an element
+    (what the operators inside leave behind at the end of the subset must not reach the next subset).  Raises Reject for
+    sequences the reference cannot feed or that hold a specification-ambiguous construct."""
+    mv = ch.choice(opts.versions or rtables.available_master_versions())
+    seqs, leaves = operator_sequences(mv)
+    if not seqs:
+        raise Reject('no operator-bearing sequence in this version')
+    sid = ch.choice(leaves) if (leaves and ch.bool(2, 3)) else ch.choice(seqs)
+    pl = gpool.pool_for(mv)
+    form = ch.weighted([(4, 'alone'), (1, 'twice'), (2, 'then_element'), (1, 'element_then')])
+    e = ch.choice(pl.num_all)
+    ids = {'alone': [sid], 'twice': [sid, sid], 'then_element': [sid, e], 'element_then': [e, sid]}[form]
+    c = gen_case(ch, opts, fixed=(mv, None, ids))
+    c.features.add('operators_only_inside_table_d_sequences')
+    return c
+
+
 def version_twin_runs(versions, per_pair=6):
     """[(tag, [case, case])]: the same small template on two master table versions that define its element differently
     (width, scale or reference value), to be handled one after the other by one coder object, in both orders --
